@@ -1,12 +1,163 @@
 """Special-purpose checks (C11, C12, C13, C16, C17, C18) and replay."""
-import json, os, sys, time
+import json, os, sys, time, subprocess
 import vlib
 from vlib import Machinery, log
 
+TRUST = ["rustc/cargo 1.95 and std's Unicode tables (the definition of the predicates)", "unicode-xid 0.2.6 (definition of XID_Start/XID_Continue)"]
+
+
+def e2e_part(prop, tier, cov, violations, notes, build_is_violation=False):
+    e = vlib.run_e2e(prop, tier, build_timeout=1800, run_timeout=3600)
+    c = e["counters"]
+    cov["executions_real_code"] = c["executions"]
+    cov["lexers_built"] = e["lexers_built"]
+    cov["lexers_total"] = e["lexers_total"]
+    cov["members_seen_real_code"] = c["rewinds"]
+    cov["build_s"] = round(e["build_s"], 1)
+    cov["run_s"] = round(e["run_s"], 1)
+    cov["dumps_bound"] = e["dumps"]["dumps_bound"]
+    cov["dumps_unbound"] = len(e["dumps"]["dumps_unbound"])
+    cov["traces_validated_against_impl"] = c["m_validated"]
+    for v in e["violations"]:
+        violations.append(v)
+    for nb in e["not_built"] + e["screened_out"]:
+        msg = str(nb.get("errors") or nb.get("what"))[:400]
+        if build_is_violation:
+            violations.append({"definition": nb.get("definition"), "kind": "does-not-build", "what": "well-formed definition does not expand/compile: " + msg, "input": None})
+        else:
+            notes.append(f"lexer {nb['lexer']} not built ({msg[:120]}): unexplored here, C12's business")
+    if e["dumps"]["dumps_unbound"]:
+        print(f"ORCHESTRATION-DRIFT: {len(e['dumps']['dumps_unbound'])} lexers: in-process dump differs from the macro's")
+    return e
+
+
+def c11(tier):
+    t0 = time.time()
+    vlib.ensure_harness()
+    q = tier == "quick"
+    violations, notes = [], []
+    rm = vlib.pexp(["rangemap", 8, 5 if q else 6, 3])
+    ce = vlib.pexp(["classexpr", 3, 7 if q else 1])
+    for v in rm["violations"] + ce["violations"]:
+        v = dict(v)
+        v["what"] = f"{v['kind']}: {v['detail']}"
+        violations.append(v)
+    cov = {
+        "states": rm["unit"]["states"] + rm["tagged"]["states"] + rm["tagged_depth2"]["states"],
+        "transitions": rm["unit"]["transitions"] + rm["tagged"]["transitions"] + rm["tagged_depth2"]["transitions"],
+        "traces_validated_against_impl": rm["unit"]["transitions"] + rm["tagged"]["sequences"] + rm["tagged_depth2"]["sequences"],
+        "rangemap_unit": rm["unit"], "rangemap_tagged": rm["tagged"], "rangemap_tagged_depth2": rm["tagged_depth2"],
+        "class_expressions": ce["enumerated"], "class_regress": ce["regress"],
+        "samples": ce["enumerated"]["samples"] + [{"rangemap": "BFS from the empty RangeMap<()> over universe 0..8 with insert / insert_ranges / remove_ranges of every sorted disjoint range list, to fixpoint; invariant: sorted, disjoint, non-inverted, point-wise equal to a bitset model"}],
+        "exhaustive": rm["unit"]["fixpoint"],
+        "explanation": "The state space is explored on the real RangeMap (no model of it): every transition executes the real operation and is compared with a bitset; "
+                       "traces_validated_against_impl counts those real executions. Class expressions go through the real add_re -> NFA -> DFA -> codegen.",
+    }
+    e2e_part("C11", tier, cov, violations, notes, build_is_violation=True)
+    cov["notes"] = notes
+    return vlib.finish("C11", tier, "model_checking", cov, t0, violations, TRUST + ["interval arithmetic of the reference (cross-checked against bitsets exhaustively over 6 points in setup)"])
+
+
+def c13(tier):
+    t0 = time.time()
+    vlib.ensure_harness()
+    violations, notes = [], []
+    b = vlib.pexp(["builtins"])
+    for v in b["violations"]:
+        v = dict(v)
+        v["what"] = f"{v['kind']}: {v['detail']}"
+        violations.append(v)
+    cov = {
+        "evaluations": b["evaluations"],
+        "rule": "automaton level: each of the 20 names and 26 combinations (|, #, # range, _ #) compiled by the real pipeline and compared with the Rust predicate on every one of the 1,112,064 scalar values; "
+                "real generated code: per built-in three lexers (per-range arms `$$n`, guard chain or binary-search table `$$n 'x'`, table inside a right-context function `'a' > $$n`) plus combinations, "
+                "each run on every scalar value; a case is non-trivial if the class is non-empty and the lexer was built; distinct = distinct (expression, shape)",
+        "automaton_level": b["per_expr"],
+        "exhaustive": True,
+    }
+    e = e2e_part("C13", tier, cov, violations, notes, build_is_violation=True)
+    cov["evaluations"] += e["counters"]["executions"]
+    cov["distinct_nontrivial"] = len(b["per_expr"]) + e["lexers_built"]
+    cov["samples"] = [{"expr": x["expr"], "members": x["members"], "ranges": x["ranges"], "differing_scalar_values": x["differing"]} for x in b["per_expr"][:3]] + e["samples"][:2]
+    cov["notes"] = notes
+    return vlib.finish("C13", tier, "exploration", cov, t0, violations, TRUST)
+
+
+def c16(tier):
+    t0 = time.time()
+    vlib.ensure_harness()
+    q = tier == "quick"
+    violations, notes = [], []
+    p = vlib.pexp(["parser", 5 if q else 6, 4, 1 if q else 1])
+    for v in p["violations"]:
+        v = dict(v)
+        v["what"] = f"{v['kind']}: {v['detail']}"
+        violations.append(v)
+    cov = {
+        "evaluations": p["printings_parsed"] + p["factorings_parsed"],
+        "distinct_nontrivial": p["distinct_texts"],
+        "rule": f"every regex tree of size <= {p['size']} over char, string, set, _, $v, $$builtin, $ (tail only) and * + ? concatenation | #, printed (a) with minimal parentheses, (b) fully parenthesised, "
+                "(c) with every subset of redundant parentheses (size <= 4), as rule, as let body and as right context (size <= 3), and (d) with every subtree factored into a let; "
+                "parsed by the real make_lexer_parser; the ast::Regex must equal the tree (after substitution for d). distinct = distinct source texts",
+        "trees": p["trees"],
+        "samples": p["samples"] or [{"tree": "Alt(Char('a'), Cat(Char('b'), Plus(Diff(Any, Char('x')))))", "minimal": "'a' | 'b' _ # 'x'+"}],
+        "exhaustive": True,
+    }
+    # scoping lives in lib.rs: real macro, behaviour against the reference with explicit environments
+    e = vlib.run_e2e("C16", tier)
+    c = e["counters"]
+    cov["executions_real_code"] = c["executions"]
+    cov["lexers_built"] = e["lexers_built"]
+    cov["dumps_bound"] = e["dumps"]["dumps_bound"]
+    cov["traces_validated_against_impl"] = c["m_validated"]
+    cov["evaluations"] += c["executions"]
+    for v in e["violations"]:
+        violations.append(v)
+    for v in e["dumps"].get("violations", []):
+        v = dict(v)
+        v["what"] = f"automaton built by the macro, all strings: {v['kind']}: {v['detail']} (after reading {v['path']!r})"
+        violations.append(v)
+    for nb in e["not_built"] + e["screened_out"]:
+        violations.append({"definition": nb.get("definition"), "kind": "does-not-build", "what": "definition using documented scoping does not expand/compile: " + str(nb.get("errors") or nb.get("what"))[:300], "input": None})
+    return vlib.finish("C16", tier, "exploration", cov, t0, violations, TRUST[:1] + ["reference lexer R resolves variables with explicit per-rule-set environments"])
+
+
+def c18(tier):
+    t0 = time.time()
+    vlib.ensure_harness()
+    p = vlib.run([vlib.TABLEGEN, "10"], timeout=1800, check=False)
+    if p.returncode != 0:
+        raise Machinery("tablegen failed: " + p.stderr[-2000:])
+    r = json.loads(p.stdout.strip().split("\n")[-1])
+    violations = []
+    for v in r["violations"]:
+        v = dict(v)
+        v["what"] = f"{v['kind']}: {v['detail']}"
+        violations.append(v)
+    cov = {
+        "evaluations": r["predicate_calls"],
+        "distinct_nontrivial": r["nontrivial"],
+        "rule": "all 2^10 predicates that are unions of the elementary segments between the cut points 0, 1, 7F, 80, D7FE, D7FF, E000, E001, 10FFFE, 10FFFF, each run through the real generate_char_fn_ranges "
+                "(one evaluation = one predicate call); oracle: maximal runs on the segment representation merged across the surrogate gap, scalar end points, sorted, disjoint, non-adjacent; "
+                "plus the generator's own 20 (function, name) pairs against a direct scan and against the documented predicate of that name. non-trivial = more than one range, or a range touching D7FF / E000 / 10FFFF",
+        "predicates": r["predicates"],
+        "distinct_tables": r["distinct_tables"],
+        "real_predicates": r["real_predicates"],
+        "samples": r["samples"],
+        "exhaustive": True,
+    }
+    return vlib.finish("C18", tier, "exploration", cov, t0, violations, TRUST)
+
 
 def run(prop, tier):
-    raise Machinery(f"no check implemented for {prop}")
+    f = {"C11": c11, "C13": c13, "C16": c16, "C18": c18}.get(prop)
+    if f is None:
+        import special2
+        return special2.run(prop, tier)
+    return f(tier)
 
 
 def replay(prop, path):
-    raise Machinery("replay not implemented yet")
+    """Rebuild the single definition of a replay file from the working tree and re-run its case."""
+    import special2
+    return special2.replay(prop, path)
